@@ -44,8 +44,15 @@ type DagSpec struct {
 	NoOtherFirst float64 // probability a creator's first event has no other-parent
 	Repeat       float64 // probability of re-using the previous other-parent (equal lamport ties)
 	ClockSkew    int64   // honest clocks differ by up to this many seconds
-	Liars        int     // number of creators with arbitrary timestamps
-	ItxProb      float64
+	// FastClocks: 0 = every creator's clock is in the past of the machine that
+	// executes the DAG (2023); 1 = every creator's clock is decades ahead of it
+	// (2100); 2 = about half of the creators are ahead. Nothing in the consensus
+	// output may depend on the executing machine's clock (C03), and a block's
+	// time is the median of what the famous witnesses claim (C18) whatever the
+	// local time is.
+	FastClocks int
+	Liars      int // number of creators with arbitrary timestamps
+	ItxProb    float64
 	// Hidden: one creator's head is not used as other-parent by the creators in
 	// HiddenFrom during [HideFrom, HideTo) (fractions of the DAG): produces
 	// split votes and long fame elections
@@ -101,6 +108,14 @@ func genDag(rng *rand.Rand, seed int64, sp DagSpec) *Dag {
 	for i := range skews {
 		if sp.ClockSkew > 0 {
 			skews[i] = rng.Int63n(2*sp.ClockSkew+1) - sp.ClockSkew
+		}
+	}
+	if sp.FastClocks > 0 {
+		// no draw from rng here: the DAG's structure is the same in every clock mode
+		for i := range skews {
+			if sp.FastClocks == 1 || i%2 == 0 {
+				skews[i] += 4102444800 - baseTime // 2100-01-01
+			}
 		}
 	}
 	txc := 0
